@@ -6,6 +6,7 @@ package main
 
 import (
 	"fmt"
+	"os"
 	"strings"
 
 	dawn "github.com/pgavlin/dawn"
@@ -229,6 +230,22 @@ type replayFile struct {
 
 func main() {
 	r := vlib.Start("C20")
+	if r.ReplayIn != "" {
+		var rf replayFile
+		r.LoadReplay(&rf)
+		res, w := runOnce(rf.Scenario, rf.Choices, true)
+		bad := verdicts(rf.Scenario, res, w)
+		fmt.Printf("scenario: %s\nschedule: %v\ninvocations: %v\nresults: %s\n", rf.Scenario, rf.Choices, w.log, w.resultString())
+		if len(bad) == 0 {
+			fmt.Println("observed: no violation on this tree")
+			os.Exit(0)
+		}
+		for _, b := range bad {
+			fmt.Println("observed:", b)
+		}
+		fmt.Printf("VIOLATION property=C20 replay=%s\n", r.ReplayIn)
+		os.Exit(1)
+	}
 	scs := scenarios(r.Thorough())
 	r.Distribute(len(scs), func(i int) {
 		sc := scs[i]
